@@ -35,19 +35,24 @@ TECHNIQUE = "runtime monitoring: format-string round trip at every point of a ta
 
 
 def field_names(c):
-    """field 'd' may be called like an SQL aggregate column: 'max(d)'"""
-    return [c.get('d_alias') or f if f == 'd' else f for f in T.FIELDS]
+    """field 'd' may be called like an SQL aggregate column: 'max(d)'; field 'b' may be called 'A' (there is a
+    field 'a' too: names that differ only in their case, as in a SQL join)"""
+    return [(c.get('d_alias') or f) if f == 'd' else (c.get('b_alias') or f) if f == 'b' else f for f in T.FIELDS]
 
 
 def alias_fmt(c, fmt):
     """the generated format strings call the 4th field 'd': rename it in the column descriptions"""
-    alias = c.get('d_alias')
-    if not alias or not fmt:
+    alias, b_alias = c.get('d_alias'), c.get('b_alias')
+    if not (alias or b_alias) or not fmt:
         return fmt
     cols, sep, rest = fmt.partition(";")
     out = []
     for col in cols.split(","):
-        out.append(alias + col[1:] if col[:1] == 'd' and col[1:2] in ('', '!', ':', '/') else col)
+        if alias and col[:1] == 'd' and col[1:2] in ('', '!', ':', '/'):
+            col = alias + col[1:]
+        elif b_alias and col[:1] == 'b' and col[1:2] in ('', '!', ':', '/'):
+            col = b_alias + col[1:]
+        out.append(col)
     return ",".join(out) + sep + rest
 
 
@@ -72,8 +77,10 @@ def gen_case(rng):
     recs = T.gen_records(rng, (0, 1, 3, 6, 10, 13) if rng.random() < 0.88 else (49, 52, 55, 70))
     fmt, _, limits = T.gen_fmt(rng, allow_hidden=True)
     if len(recs) > 40 and rng.random() < 0.6:
-        fmt = fmt.split(";")[0] + rng.choice([";*", ";80:80", ";60:5"])
+        fmt = fmt.split(";")[0] + rng.choice([";*", ";80:80", ";60:5", ";30:20", ";30:20"])
     lim_arg = rng.choice([None, None, None, (1, 1), (0, 2), (2, 0), (None, 2), (3, None), (None, None)])
+    if len(recs) > 40 and rng.random() < 0.3:
+        lim_arg = (30, 20)       # (the values the documentation names as defaults)
     if recs and rng.random() < 0.15:
         # log-like tables: the same few records again and again (equal and identical objects)
         pool = recs[:rng.randint(1, 2)]
@@ -86,15 +93,16 @@ def gen_case(rng):
         fmt2 = rng.choice([";%d:%d" % (rng.randint(0, 3), rng.randint(0, 3)), ";*", fmt2.split(";")[0]])
     remove = rng.sample(T.FIELDS, rng.randint(0, 2))
     d_alias = rng.choice([None, None, None, "max(d)", "d(x)"])
-    c0 = {'d_alias': d_alias}
+    b_alias = rng.choice([None, None, None, "A"])
+    c0 = {'d_alias': d_alias, 'b_alias': b_alias}
     fmt, fmt2 = alias_fmt(c0, fmt), alias_fmt(c0, fmt2)
-    remove = [d_alias if (f == 'd' and d_alias) else f for f in remove]
+    remove = [d_alias if (f == 'd' and d_alias) else b_alias if (f == 'b' and b_alias) else f for f in remove]
     sibling = T.gen_records(rng, (1, 3, 6)) if rng.random() < 0.4 else None
     if sibling:
         # cells of other lengths than in the first table
         sibling = [tuple((v * 3 if isinstance(v, str) else v) for v in r) for r in sibling]
     shape = rng.choice([None] * 8 + ['namedtuple', 'attr'])
-    if shape == 'namedtuple' and (d_alias or not recs):
+    if shape == 'namedtuple' and (d_alias or b_alias or not recs):
         shape = None
     if shape:
         sibling = None
@@ -103,7 +111,7 @@ def gen_case(rng):
         fmt2 = rng.choice([";1:2", ";*", fmt.split(";")[0], fmt.split(";")[0] + ";2:1"])
         known = {col.split(":")[0].split("/")[0].rstrip("!") for col in fmt.split(";")[0].split(",")}
         remove = [f for f in remove if f in known]
-    return dict(shape=shape, recs=recs, fmt=fmt, lim_arg=lim_arg, fmt2=fmt2, remove=remove, d_alias=d_alias, sibling=sibling,
+    return dict(b_alias=b_alias, shape=shape, recs=recs, fmt=fmt, lim_arg=lim_arg, fmt2=fmt2, remove=remove, d_alias=d_alias, sibling=sibling,
                 header=rng.choice([None, "hdr"]), footer=rng.choice([None, "f", ""]),
                 titles={f: rng.choice(T.TITLES_POOL[f]) for f in T.FIELDS})
 
